@@ -1858,3 +1858,50 @@ func checkCloseCallers(c *Ctx, r *Report, rule string) {
 		r.Unk(rule, "Channel.Close callers", "-", "no caller of Channel.Close found")
 	}
 }
+
+// ---- C12: the caller's dialogue description is read, never written ---------------------------------------------------
+//
+// A list of SendInteractiveEvent values belongs to the caller and is typically reused (the same dialogue on many
+// devices). An operation that fills defaults into the events it was handed -- this driver's prompt pattern where no
+// expected response was given -- makes the next driver wait for the first one's prompt.
+
+func checkEventsNotMutated(c *Ctx, r *Report, rule string) {
+	n := 0
+	var bad []string
+	badPos := ""
+	for _, fn := range c.LibFns {
+		allInstrs(fn, func(in ssa.Instruction) {
+			st, ok := in.(*ssa.Store)
+			if !ok {
+				return
+			}
+			fa, ok := st.Addr.(*ssa.FieldAddr)
+			if !ok {
+				return
+			}
+			pt, ok := fa.X.Type().Underlying().(*types.Pointer)
+			if !ok {
+				return
+			}
+			nt, ok := pt.Elem().(*types.Named)
+			if !ok || nt.Obj().Name() != "SendInteractiveEvent" {
+				return
+			}
+			n++
+			if _, isAlloc := fa.X.(*ssa.Alloc); isAlloc {
+				return // an event built here
+			}
+			bad = append(bad, fmt.Sprintf("%s writes %s of an event it did not build (at %s)", shortFn(fn), fieldOfAddr(fa).Name(), c.Pos(st.Pos())))
+			if badPos == "" {
+				badPos = c.Pos(st.Pos())
+			}
+		})
+	}
+	sort.Strings(bad)
+	construct := "no write into a caller's SendInteractiveEvent"
+	if len(bad) > 0 {
+		r.Bad(rule, construct, badPos, strings.Join(bad, "; ")+": the caller's dialogue description is altered in place -- the same list sent to a second driver is paced by what the first one filled in (its prompt pattern) instead of by that device's prompt")
+	} else {
+		r.OK(rule, construct, "-", fmt.Sprintf("%d stores into events examined (all into events built on the spot)", n))
+	}
+}
